@@ -170,6 +170,147 @@ def build(reg, cfg):
     reg.add(Contract(FN, PROP, pre=pre_node(cfg), post=post_node(cfg), slice_loop=1, name=FN + '::<node loop body>', safety={'bounds'}))
 
 
+# ---- bounded native check (population level, every contact model x dynamic model; a stand-in where no contract reaches, never counted as proved) ----------
+POP_DRIVER = r'''
+#include <cstdio>
+#include <cstdlib>
+#include <cmath>
+#include <array>
+#include <vector>
+#include "epithelial_cell.hpp"
+#include "time_integration.hpp"
+// One call of the real time_integration_scheme::update_nodes_positions on a small population (three closed cells of different sizes,
+// deterministic pseudo-random forces / momenta, a few mutual couplings in the form of the compiled contact model), compared node by
+// node with the documented law. argv[1] = number of consecutive steps.
+static double rnd(unsigned k){ return std::sin(12.9898 * (k + 1)) * 43758.5453 - std::floor(std::sin(12.9898 * (k + 1)) * 43758.5453) - 0.5; }
+static void octa(double s, double ox, double oy, double oz, std::vector<double>& pos, std::vector<unsigned>& faces){
+  const double v[6][3] = {{1,0,0},{-1,0,0},{0,1,0},{0,-1,0},{0,0,1},{0,0,-1}};
+  const unsigned f[8][3] = {{0,2,4},{2,1,4},{1,3,4},{3,0,4},{2,0,5},{1,2,5},{3,1,5},{0,3,5}};
+  for(auto& p: v){ pos.push_back(s*p[0]+ox); pos.push_back(s*p[1]+oy); pos.push_back(s*p[2]+oz); }
+  for(auto& t: f){ faces.push_back(t[0]); faces.push_back(t[1]); faces.push_back(t[2]); }
+}
+struct snap { vec3 x, p, f; };
+int main(int argc, char** argv){
+  const int steps = argc > 1 ? atoi(argv[1]) : 1;
+  face_type_parameters ft; ft.name_ = "apical"; ft.face_type_global_id_ = 0;
+  auto ct = std::make_shared<cell_type_parameters>(); ct->name_ = "epithelial"; ct->global_type_id_ = 0; ct->mass_density_ = 1.3; ct->add_face_type(ft);
+  std::vector<cell_ptr> cells;
+  const double sz[3] = {1.0, 1.7, 0.6};
+  for(unsigned c = 0; c < 3; c++){
+    std::vector<double> pos; std::vector<unsigned> faces; octa(sz[c], 4.0 * c - 3.0, 2.5, -1.0, pos, faces);
+    auto cp = std::make_shared<epithelial_cell>(pos, faces, c + 4, ct);      // persistent ids 4,5,6 differ from the positions 0,1,2
+    cp->initialize_cell_properties(true); cp->set_local_id(c); cells.push_back(cp);
+  }
+  global_simulation_parameters sp; sp.time_step_ = 0.015625; sp.damping_coefficient_ = 0.75;
+  time_integration_scheme ti(sp, false);
+  const double dt = sp.time_step_, damp = sp.damping_coefficient_;
+  // couplings (mutual): (cell 0 node 1) <-> (cell 1 node 0); (cell 2 node 3) <-> (cell 1 node 4); contact model 2 additionally a triple:
+  // (cell 2 node 5) <-> (cell 0 node 2) and (cell 2 node 5) <-> (cell 1 node 2)
+  struct cpl { unsigned ca, na, cb, nb; };
+  std::vector<cpl> cps = {{0,1,1,0},{2,3,1,4}};
+  #if CONTACT_MODEL_INDEX == 2
+    cps.push_back({2,5,0,2}); cps.push_back({2,5,1,2});
+  #endif
+  int bad = 0; unsigned seed = 0;
+  for(int s = 0; s < steps; s++){
+    for(auto& c: cells) for(node& n: c->node_lst_){
+      n.force_ = vec3(rnd(seed), rnd(seed+1), rnd(seed+2)); seed += 3;
+      #if DYNAMIC_MODEL_INDEX == 0
+        if(s == 0){ n.momentum_ = vec3(rnd(seed), rnd(seed+1), rnd(seed+2)) * 0.3; seed += 3; }
+      #endif
+    }
+    #if CONTACT_MODEL_INDEX == 1
+      for(auto& k: cps){ cells[k.ca]->node_lst_[k.na].coupled_node_ = std::make_pair(k.cb, k.nb); cells[k.cb]->node_lst_[k.nb].coupled_node_ = std::make_pair(k.ca, k.na); }
+    #elif CONTACT_MODEL_INDEX == 2
+      for(auto& k: cps){ cells[k.ca]->node_lst_[k.na].set_coupled_node_and_min_distance(k.cb, k.nb, 0.01); cells[k.cb]->node_lst_[k.nb].set_coupled_node_and_min_distance(k.ca, k.na, 0.01); }
+    #endif
+    std::vector<std::vector<snap>> old(3);
+    for(unsigned c = 0; c < 3; c++) for(node& n: cells[c]->node_lst_){
+      snap q; q.x = n.pos_; q.f = n.force_;
+      #if DYNAMIC_MODEL_INDEX == 0
+        q.p = n.momentum_;
+      #endif
+      old[c].push_back(q);
+    }
+    const double t0 = ti.get_simulation_time();
+    ti.update_nodes_positions(cells);
+    if(std::fabs(ti.get_simulation_time() - (t0 + dt)) > 1e-15){ printf("FAIL step %d: simulated time advanced by %.17g instead of %.17g\n", s, ti.get_simulation_time() - t0, dt); bad++; }
+    // groups: every node is in exactly one group (itself + its coupled partners as listed above, in this contact model)
+    std::vector<std::vector<std::pair<unsigned,unsigned>>> groups; std::vector<std::vector<bool>> seen(3);
+    for(unsigned c = 0; c < 3; c++) seen[c].assign(cells[c]->node_lst_.size(), false);
+    #if CONTACT_MODEL_INDEX != 0
+      #if CONTACT_MODEL_INDEX == 2
+        groups.push_back({{2,5},{0,2},{1,2}}); groups.push_back({{0,1},{1,0}}); groups.push_back({{2,3},{1,4}});
+      #else
+        groups.push_back({{0,1},{1,0}}); groups.push_back({{2,3},{1,4}});
+      #endif
+      for(auto& g: groups) for(auto& m: g) seen[m.first][m.second] = true;
+    #endif
+    for(unsigned c = 0; c < 3; c++) for(unsigned k = 0; k < seen[c].size(); k++) if(!seen[c][k]) groups.push_back({{c,k}});
+    for(auto& g: groups){
+      vec3 F(0,0,0), P(0,0,0); double M = 0; const double cnt = g.size();
+      for(auto& m: g){ F = F + old[m.first][m.second].f; P = P + old[m.first][m.second].p; M += cells[m.first]->get_node_mass(); }
+      const vec3 fa = F / cnt; const vec3 pa = P / cnt; const double ma = M / cnt;
+      #if DYNAMIC_MODEL_INDEX == 0
+        const vec3 dp = (fa - pa * (damp / ma)) * dt;            // momentum += (force - damping*momentum/mass)*dt   (group averages)
+        const vec3 dx = (pa + dp) * (dt / ma);                    // then position += momentum*dt/mass
+      #else
+        const vec3 dx = fa * (dt / damp);
+      #endif
+      vec3 Pnew(0,0,0);
+      for(auto& m: g){
+        node& n = cells[m.first]->node_lst_[m.second];
+        const vec3 moved = n.pos_ - old[m.first][m.second].x;
+        const double scale = std::max(1e-300, std::max(dx.norm(), moved.norm()));
+        if((moved - dx).norm() > 1e-9 * scale){ printf("FAIL step %d: node %u of the cell at position %u (group of %d) moved by (%.12g %.12g %.12g), the law gives (%.12g %.12g %.12g)\n", s, m.second, m.first, (int)g.size(), moved.dx(), moved.dy(), moved.dz(), dx.dx(), dx.dy(), dx.dz()); bad++; }
+        if(n.force_.norm() != 0.0){ printf("FAIL step %d: force accumulator of node %u of cell %u not reset\n", s, m.second, m.first); bad++; }
+        #if DYNAMIC_MODEL_INDEX == 0
+          Pnew = Pnew + n.momentum_;
+        #endif
+      }
+      #if DYNAMIC_MODEL_INDEX == 0
+        const vec3 Pexp = P + dp * cnt;
+        if((Pnew - Pexp).norm() > 1e-9 * std::max(1e-300, Pexp.norm())){ printf("FAIL step %d: total momentum of a group of %d is (%.12g %.12g %.12g), the law gives (%.12g %.12g %.12g)\n", s, (int)g.size(), Pnew.dx(), Pnew.dy(), Pnew.dz(), Pexp.dx(), Pexp.dy(), Pexp.dz()); bad++; }
+      #endif
+    }
+  }
+  if(bad){ printf("FAIL %d deviation(s) from the integration law (contact model %d, dynamic model %d)\n", bad, CONTACT_MODEL_INDEX, DYNAMIC_MODEL_INDEX); return 1; }
+  printf("OK contact model %d, dynamic model %d, %d step(s)\n", CONTACT_MODEL_INDEX, DYNAMIC_MODEL_INDEX, steps); return 0;
+}
+'''
+POP_CASES = [(c, d) for c in (1, 0, 2) for d in (0, 1)]
+
+
+def extra_checks(run):
+    import native, json, os
+    out = []
+    steps = '12' if run.tier == 'thorough' else '3'
+    for c, d in POP_CASES:
+        code, txt = native.run_driver(POP_DRIVER, [steps], defines={'SIMUCELL3D_VERIF_CONTACT_MODEL_INDEX': c, 'SIMUCELL3D_VERIF_DYNAMIC_MODEL_INDEX': d}, timeout=600)
+        name = 'C03/bounded/integration-law-on-a-small-population[contact model %d, dynamic model %d]' % (c, d)
+        rec = {'name': name, 'bound': ('three octahedral cells of different sizes (persistent ids 4,5,6 at positions 0,1,2), pseudo-random forces and momenta, two mutual pairs '
+                                       '(contact model 2: plus one group of three), %s consecutive calls of the real update_nodes_positions; IEEE doubles, relative tolerance 1e-9') % steps,
+               'result': 'every node follows the law' if code == 0 else ('deviation from the law' if code == 1 else 'driver failed (%d)' % code), 'output': txt[-600:]}
+        if code == 1:
+            rp = os.path.join(os.path.dirname(os.path.dirname(os.path.abspath(__file__))), 'replays', 'C03-bounded-population-%d-%d.json' % (c, d))
+            os.makedirs(os.path.dirname(rp), exist_ok=True)
+            json.dump({'property': 'C03', 'obligation': name, 'native': {'args': [steps], 'defines': {'CONTACT_MODEL_INDEX': c, 'DYNAMIC_MODEL_INDEX': d}, 'output': txt, 'driver': 'specs/C03.py:POP_DRIVER'}, 'confirmed': True}, open(rp, 'w'), indent=1)
+            rec.update({'violation': True, 'replay': rp, 'confirmed': True})
+        out.append(rec)
+    return out
+
+
+
+def replay_recorded(data):
+    """re-run the recorded native scenario (bounded population check) on the current tree"""
+    import native
+    nat = data.get('native') or {}
+    if 'defines' not in nat: return {'confirmed': False, 'output': 'no native scenario recorded for this obligation; re-run ./check C03'}
+    dfn = {'SIMUCELL3D_VERIF_' + k: v for k, v in nat['defines'].items()}
+    code, out = native.run_driver(POP_DRIVER, nat.get('args') or ['3'], defines=dfn, timeout=600)
+    return {'confirmed': code == 1, 'output': out}
+
+
 EXPLANATION = ("update_nodes_positions is decided per compile-time configuration (contact model 0/1 x dynamic model 0/1; clang is run once per "
                "configuration through the guarded override hook). Three contracts each: (1) the whole function with both loops under a "
                "contract that lets them write anything except dt_, damping_coeff_, simulation_time_ (frame obligation on the loop bodies): "
@@ -182,5 +323,5 @@ EXPLANATION = ("update_nodes_positions is decided per compile-time configuration
 ASSUMPTIONS = ["exact reals", "sequential semantics of the '#pragma omp parallel for' (C15 is not applicable)",
                "couplings are mutual and designate live nodes of listed cells with cell.local_id_ equal to the list index (the property's own hypothesis; C08 covers where this is established)",
                "'each node exactly once per call' follows from for-loop semantics over the cell and node lists plus the pair rule (larger index integrates): stated, not machine-checked",
-               "contact model 2 (face-face coupling, std::map of couplings) is not under contract"]
+               "contact model 2 (face-face coupling, std::map of couplings) is not under a deductive contract; it is exercised by the bounded native population check only (listed under bounded_checks, not counted as proved)"]
 UNVERIFIED = ["update_nodes_positions for CONTACT_MODEL_INDEX == 2", "kinetic_energy_ bookkeeping (not part of the property)"]
